@@ -1153,6 +1153,69 @@ def burst_cases(ctx):
     return n
 
 
+def big_message_over_socket_cases(ctx):
+    """A message larger than what the connection takes at once (a small send buffer, a receiver that reads in its own
+    time), followed by short ones, from one and from two sender threads: every message arrives once and whole."""
+    import socket as _s
+    import threading as _th
+    import time as _t
+    from mido.sockets import SocketPort
+    n = 0
+    for size, nsenders in ((100000, 1), (30000, 2), (300000, 1)):
+        case = {'kind': 'socket-big-message', 'size': size, 'senders': nsenders}
+        a, b = _s.socketpair()
+        try:
+            a.setsockopt(_s.SOL_SOCKET, _s.SO_SNDBUF, 4096)
+            b.setsockopt(_s.SOL_SOCKET, _s.SO_RCVBUF, 4096)
+        except OSError:
+            pass
+        out, inp = SocketPort('out', 1, conn=a), SocketPort('in', 1, conn=b)
+        errors, got = [], []
+        done = _th.Event()
+
+        def sender(s):
+            try:
+                out.send(Message('sysex', data=(s, 0) + tuple((i * 7 + s) % 128 for i in range(size))))
+                for q in range(1, 4):
+                    out.send(Message('note_on', channel=s, note=q, velocity=100))
+            except BaseException as exc:
+                errors.append(f'send: {type(exc).__name__}: {exc}')
+
+        def receiver():
+            try:
+                t_end = _t.time() + 30
+                while _t.time() < t_end and len(got) < 4 * nsenders:
+                    m = inp.poll()
+                    if m is None:
+                        _t.sleep(0.001)
+                    else:
+                        got.append(m)
+            except BaseException as exc:
+                errors.append(f'receive: {type(exc).__name__}: {exc}')
+            done.set()
+        ths = [_th.Thread(target=sender, args=(s,), daemon=True) for s in range(nsenders)] + [_th.Thread(target=receiver, daemon=True)]
+        for t in ths:
+            t.start()
+        done.wait(40)
+        for t in ths:
+            t.join(5)
+        want = {s: [(s, 0)] + [(s, q) for q in range(1, 4)] for s in range(nsenders)}
+        per = {s: [msg_tag(m) for m in got if msg_tag(m)[0] == s] for s in range(nsenders)}
+        whole = all(m.type != 'sysex' or (len(m.data) == size + 2 and all(m.data[2 + i] == (i * 7 + m.data[0]) % 128 for i in range(0, size, 997)))
+                    for m in got)
+        ctx.check('no call raises', not errors, 'socket-big-message:raised', case, errors[:2])
+        ctx.check('exactly once (nothing lost, duplicated, invented)', per == want and len(got) == 4 * nsenders, 'socket-big-message:lost', case,
+                  lambda: {'received': {s: v for s, v in per.items()}, 'total': len(got)})
+        ctx.check('received == sent snapshot, not the same object', whole, 'socket-big-message:corrupted', case, None)
+        for p_ in (out, inp):
+            try:
+                p_.close()
+            except Exception:
+                pass
+        n += 1
+    return n
+
+
 def run(ctx):
     sh, N = ctx.shard, ctx.nshards
     total = collections.Counter()
@@ -1185,6 +1248,10 @@ def run(ctx):
         ctx.nontrivial(None, k_)
         ctx.extra('helper_argument_cases', k_)
         nstress += k_
+    if sh == 4 % N:
+        k_ = big_message_over_socket_cases(ctx)
+        ctx.nontrivial(None, k_)
+        nstress += k_
     if sh == 3 % N:
         k_ = burst_cases(ctx)
         ctx.nontrivial(None, k_)
@@ -1209,6 +1276,9 @@ def run(ctx):
 
 
 def replay(ctx, case):
+    if case.get('kind') == 'socket-big-message':
+        big_message_over_socket_cases(ctx)
+        return
     if case.get('kind') == 'burst':
         burst_cases(ctx)
         return
